@@ -282,6 +282,27 @@ def run(ctx):
     raise T.MachineryError("MsSweep violates its own properties: " + str(res.violated))
   ctx.tlc(res, "ms quantiser sweep")
 
+  # ---- 1b. unbounded: Apalache discharges the inductive invariant of the drop-frame odometer (any n, not only 24 h) ----
+  import shutil
+  import subprocess
+  import tempfile
+  if shutil.which("apalache-mc"):
+    for cinit in ("CInit30", "CInit60"):
+      with tempfile.TemporaryDirectory(dir=T.scratch_root()) as d:
+        shutil.copy(os.path.join(T.SPEC_DIR, "TimecodeInd.tla"), d)
+        outs = []
+        for args in (["--init=Init", "--length=0"], ["--init=IndInit", "--length=1"]):
+          try:
+            p = subprocess.run(["apalache-mc", "check", "--cinit=" + cinit, "--inv=IndInv", "--next=Next", "--out-dir=" + d + "/out"]
+                               + args + ["TimecodeInd.tla"], cwd=d, stdout=subprocess.PIPE, stderr=subprocess.STDOUT, text=True,
+                               timeout=300)
+            outs.append("NoError" if "The outcome is: NoError" in p.stdout else "Error" if "The outcome is: Error" in p.stdout else "unknown")
+          except subprocess.TimeoutExpired:
+            outs.append("timeout")
+        ctx.count(f"apalache_inductive_invariant_{cinit}(base,step)=" + ",".join(outs))
+        if "Error" in outs:
+          raise T.MachineryError("TimecodeInd: the odometer invariant is not inductive according to Apalache: " + str(outs))
+
   # ---- 2. implementation traces ------------------------------------------------------------------
   jobs = []
   for name, num, den, fps, drop in RATES:
